@@ -12,6 +12,7 @@ include!("/verif/kani/common.rs");
 #[kani::unwind(70)]
 #[kani::stub(vs::curve25519_dalek::edwards::CompressedEdwardsY::decompress, vs::decompress_oracle)]
 #[kani::stub(iroh_base::PublicKey::verify, vs::verify_oracle)]
+#[kani::stub(<vs::ed25519_dalek::VerifyingKey as vs::ed25519_dalek::Verifier<vs::ed25519_dalek::Signature>>::verify, vs::nonstrict_verify_oracle)]
 #[kani::stub(n0_error::backtrace_enabled, vstubs::backtrace_disabled)]
 fn c01_handshake_signature_is_checked_with_the_presented_key() {
     let pk: [u8; 33] = kani::any();
@@ -43,6 +44,8 @@ fn c01_handshake_signature_is_checked_with_the_presented_key() {
         let all_good = pl == 32 && sl == 64 && vs::oracle_answer(&k) == Some(true) && vs::sig_queries() == 1 && vs::sig_query(0).answer;
         assert!(!all_good);
     }
+    // dalek's non-strict verification is never consulted
+    assert!(vs::nonstrict_queries() == 0);
     kani::cover!(r.is_ok());
     kani::cover!(r.is_err() && pl == 32 && sl == 64);
 }
@@ -67,6 +70,7 @@ fn c01_client_cert_no_intermediates() {
 #[kani::unwind(70)]
 #[kani::stub(vs::curve25519_dalek::edwards::CompressedEdwardsY::decompress, vs::decompress_oracle)]
 #[kani::stub(iroh_base::PublicKey::verify, vs::verify_oracle)]
+#[kani::stub(<vs::ed25519_dalek::VerifyingKey as vs::ed25519_dalek::Verifier<vs::ed25519_dalek::Signature>>::verify, vs::nonstrict_verify_oracle)]
 #[kani::stub(n0_error::backtrace_enabled, vstubs::backtrace_disabled)]
 fn c01_witness() {
     let pk: [u8; 32] = kani::any();
